@@ -210,6 +210,7 @@ fn add_thousand_separators(s: &str) -> String {
 }
 
 #[derive(Debug)]
+#[cfg_attr(feature = "verif-hooks", repr(u64))] // verif hook: word-sized direct tag (layout only)
 pub enum FunctionArity {
     Exact(usize),
     AtLeast(usize),
@@ -227,6 +228,7 @@ impl FunctionArity {
 }
 
 #[derive(Debug, Clone, Serialize, Deserialize, PartialEq, PartialOrd)]
+#[cfg_attr(feature = "verif-hooks", repr(u64))] // verif hook: word-sized direct tag (layout only)
 pub enum LambdaArg {
     Required(String),
     Optional(String),
@@ -384,6 +386,7 @@ pub struct WithHeap<'h, T> {
 }
 
 #[derive(Debug, Copy, Clone, PartialEq)]
+#[cfg_attr(feature = "verif-hooks", repr(u64))] // verif hook: word-sized direct tag (layout only)
 pub enum ReifiedIterableValue<'h> {
     List(&'h Vec<Value>),
     String(&'h String),
@@ -391,6 +394,7 @@ pub enum ReifiedIterableValue<'h> {
 }
 
 #[derive(Debug, Clone, PartialEq)]
+#[cfg_attr(feature = "verif-hooks", repr(u64))] // verif hook: word-sized direct tag (layout only)
 pub enum ReifiedIterableValueType {
     List,
     String,
@@ -451,6 +455,7 @@ impl<'h> IntoIterator for WithHeap<'h, ReifiedValue<'h>> {
 }
 
 #[derive(Debug, Copy, Clone, PartialEq, PartialOrd)]
+#[cfg_attr(feature = "verif-hooks", repr(u64))] // verif hook: word-sized direct tag (layout only)
 pub enum ValueType {
     Number,
     List,
@@ -481,6 +486,7 @@ impl Display for ValueType {
 
 /// A value, after it has been "reified" (borrowed) from a pointer.
 #[derive(Debug, Copy, Clone, PartialEq)]
+#[cfg_attr(feature = "verif-hooks", repr(u64))] // verif hook: word-sized direct tag (layout only)
 pub enum ReifiedValue<'h> {
     /// A number is a floating-point value.
     Number(f64),
@@ -525,6 +531,7 @@ impl From<ReifiedValue<'_>> for Value {
 }
 
 #[derive(Debug, Clone, Serialize, Deserialize, PartialEq)]
+#[cfg_attr(feature = "verif-hooks", repr(u64))] // verif hook: word-sized direct tag (layout only)
 pub enum SerializableIterableValue {
     List(Vec<SerializableValue>),
     String(String),
@@ -532,6 +539,7 @@ pub enum SerializableIterableValue {
 }
 
 #[derive(Debug, Clone, Serialize, Deserialize, PartialEq)]
+#[cfg_attr(feature = "verif-hooks", repr(u64))] // verif hook: word-sized direct tag (layout only)
 pub enum SerializableValue {
     Number(f64),
     Bool(bool),
@@ -781,6 +789,7 @@ impl SerializableValue {
 }
 
 #[derive(Debug, Copy, Clone, PartialEq, PartialOrd, Serialize, Deserialize)]
+#[cfg_attr(feature = "verif-hooks", repr(u64))] // verif hook: word-sized direct tag (layout only)
 pub enum PrimitiveValue {
     Number(f64),
     Bool(bool),
@@ -808,6 +817,7 @@ impl From<PrimitiveValue> for SerializableValue {
 }
 
 #[derive(Debug, Copy, Clone, PartialEq, PartialOrd)]
+#[cfg_attr(feature = "verif-hooks", repr(u64))] // verif hook: word-sized direct tag (layout only)
 pub enum Value {
     /// A number is a floating-point value.
     Number(f64),
